@@ -356,6 +356,7 @@ fn c16_side_by_side(run: &Run, alphabet: &[Op], depth: usize, fl: Fl, reserved: 
   let mut pairs: Vec<Pair> = cfgs.iter().map(|c| Pair::new(c, &st, &spec)).collect();
   loop {
     let word: Vec<Op> = idx.iter().map(|i| alphabet[*i]).collect();
+    crate::crashguard::set_case(crate::crashguard::head_of(&json!({"engine": "c16-sbs", "tag": "C16", "fl": fl, "reserved": reserved, "word": word})));
     // run step by step on the three arenas, comparing images
     let mut cut: Option<usize> = None;
     let mut imgs: Vec<Vec<Vec<u8>>> = vec![vec![]; 3];
